@@ -363,6 +363,18 @@ def run(ctx):
         goods = [bb for bb, idx, s in b.stmts() if "rv" in s and s["rv"]["k"] == "agg" and s["rv"].get("adt", "").endswith("CookieStatus") and s["rv"]["variant"] == "Good"]
         ctx.check(bool(goods) and all(edge_dominated(cfgb, te_all, g) for g in goods), "R3", "good-only-if-hmac-verifies", ctx.where(b),
                   "CookieStatus::Good only on the true edge of calculate_cookie(..).verify_slice(server).is_ok()")
+    # ... and nowhere else: no other function of the workspace makes up a Good (a memo of cookies seen before, keyed by less than
+    # the HMAC binds, exempts whoever replays one)
+    elsewhere = []
+    for ob in P.bodies.values():
+        if ob.id == vk or "::test" in ob.id or not ob.id.startswith("erbium::"):
+            continue
+        for _, bb2, idx2, s2 in find_aggs(P, "CookieStatus", [ob]):
+            if s2["rv"].get("variant") == "Good":
+                elsewhere.append("%s at %s" % (ob.id.split("::{")[0].rsplit("::", 1)[-1], P.rel(s2["sp"])))
+    if vk in P.bodies:
+        ctx.check(not elsewhere, "R3", "good-is-decided-only-by-the-hmac-check", ctx.where(P.bodies[vk]),
+                  "CookieStatus::Good is also produced outside the function that verifies the HMAC: %s" % (elsewhere or "-"))
     vks = "erbium::dns::DnsMessage::validate_cookie_keys"
     if vks in P.bodies:
         b = P.bodies[vks]
